@@ -323,7 +323,8 @@ def handle : Handler := fun m j =>
         ("vi_nodup", Json.bool (nodupStr (valueInfo.map (·.name)))),
         ("vi_not_io", Json.bool (valueInfo.all (fun vi => !inputNames.contains vi.name && !outputNames.contains vi.name))),
         ("out_nodup", Json.bool (nodupStr outputNames)),
-        ("out_not_in_init", Json.bool (outputNames.all (fun n => !inputNames.contains n && !initNames.contains n))),
+        ("out_input_or_not_init", Json.bool (outputs.all (fun vo => if inputNames.contains vo.name then inputs.contains vo
+                                 else !initNames.contains vo.name))),
         ("init_wf", Json.bool (initializers.all (fun t => wfTensor t && validDType t.dataType))),
         ("quant", Json.bool (nodupStr (quant.map (·.tensorName)) && quant.all (fun a => names.contains a.tensorName && !a.params.isEmpty && wfEntries a.params))),
         ("meta", Json.bool (wfEntries metadata)),
